@@ -850,38 +850,41 @@ Definition expr_parse_float (s : bytes) : res (option F) :=
 Definition has_suffix_64 (s : bytes) : bool :=
   match rev s with 52%N :: 54%N :: _ => true | _ => false end.
 
-(* the numeric arm of evalAtom's first switch; expr is trimmed, non-empty and starts with one of
+(* the arm  case '-', '.', '1' ... '9'  of evalAtom's first switch (also reached from '0' by
+   fallthrough): the u64 / i64 suffixes, then parseFloat *)
+Definition atom_number_generic (e : bytes) : res evalue :=
+  do suffix <-
+    (if (3 <? length e) && has_suffix_64 e then
+       do k <- opt_panic (bat e (length e - 3));
+       if (k =? 117)%N then
+         do h <- opt_panic (slice e 0 (length e - 3));
+         match parse_uint 10 h with PUok x => Ok (Some (VUint x)) | _ => Err ESyntax end
+       else if (k =? 105)%N then
+         do h <- opt_panic (slice e 0 (length e - 3));
+         match parse_int10 h with PUok x => Ok (Some (VInt x)) | _ => Err ESyntax end
+       else Ok None
+     else Ok None);
+  match suffix with
+  | Some v => Ok v
+  | None =>
+      do r <- expr_parse_float e;
+      match r with Some x => Ok (VFloat x) | None => Err ESyntax end
+  end.
+
+(* the numeric arms of evalAtom's first switch; expr is trimmed, non-empty and starts with one of
    0-9 - . *)
 Definition atom_number (e : bytes) : res evalue :=
   do c0 <- opt_panic (bat e 0);
-  let generic :=
-    do suffix <-
-      (if (3 <? length e) && has_suffix_64 e then
-         do k <- opt_panic (bat e (length e - 3));
-         if (k =? 117)%N then
-           do h <- opt_panic (slice e 0 (length e - 3));
-           match parse_uint 10 h with PUok x => Ok (Some (VUint x)) | _ => Err ESyntax end
-         else if (k =? 105)%N then
-           do h <- opt_panic (slice e 0 (length e - 3));
-           match parse_int10 h with PUok x => Ok (Some (VInt x)) | _ => Err ESyntax end
-         else Ok None
-       else Ok None);
-    match suffix with
-    | Some v => Ok v
-    | None =>
-        do r <- expr_parse_float e;
-        match r with Some x => Ok (VFloat x) | None => Err ESyntax end
-    end in
   if (c0 =? 48)%N then
     match bat e 1 with
     | Some c1 =>
         if ((c1 =? 120) || (c1 =? 88))%N then
           do h <- opt_panic (sfrom e 2);
           match parse_uint 16 h with PUok x => Ok (VFloat (f_of_int O x)) | _ => Err ESyntax end
-        else generic
-    | None => generic
+        else atom_number_generic e
+    | None => atom_number_generic e
     end
-  else generic.
+  else atom_number_generic e.
 
 (* ------------------------------------------------------------------ the evaluator *)
 
@@ -1335,21 +1338,23 @@ Fixpoint scan_comma (next : bool -> bytes -> R) (it : bool) (e : bytes)
       end
   end.
 
+(* the eval... function of level n >= 1, given evalAuto of the level below *)
+Definition level_scan (n : nat) (next : bool -> bytes -> R) (it : bool) (e : bytes) : R :=
+  let fuel := S (length e) in
+  match n with
+  | 11 => scan_comma next it e fuel 0 0 []
+  | 10 => scan_terns next it e fuel 0 0 [] 0%Z
+  | 2 => scan_sums next it e fuel 0 0 VUndef 0%N false false []
+  | _ => scan_level n next it e fuel 0 0 VUndef 0%N []
+  end.
+
 (* evalAuto(1 << (12 - n), expr, ctx): the first level at or below n whose bit is in ctx.steps *)
 Fixpoint eval_auto (n : nat) (it : bool) (e : bytes) : R :=
   match n with
   | 0 => eval_atom it e
   | S m =>
-      let next := eval_auto m in
-      if has_step steps n then
-        let fuel := S (length e) in
-        match n with
-        | 11 => scan_comma next it e fuel 0 0 []
-        | 10 => scan_terns next it e fuel 0 0 [] 0%Z
-        | 2 => scan_sums next it e fuel 0 0 VUndef 0%N false false []
-        | _ => scan_level n next it e fuel 0 0 VUndef 0%N []
-        end
-      else next it e
+      if has_step steps n then level_scan n (eval_auto m) it e
+      else eval_auto m it e
   end.
 
 End Levels.
